@@ -220,6 +220,15 @@ func (l *lexer) run() {
 	for l.state = lexStmt; l.state != nil; {
 		l.state = l.state(l)
 	}
+	close(l.items)
+}
+
+// drain receives and discards whatever the scanner still wants to send, so
+// that its goroutine runs to completion instead of staying blocked on the
+// unbuffered channel when the parser stops reading early (on a parse error).
+func (l *lexer) drain() {
+	for range l.items {
+	}
 }
 
 // state functions
